@@ -5,6 +5,8 @@ import GqlgenVerif.Model.Introspect
 import GqlgenVerif.Model.IntroGate
 import GqlgenVerif.Model.IntroGateCfg
 import GqlgenVerif.Gen.ExtOrder
+import GqlgenVerif.Model.IntroServed
+import GqlgenVerif.Gen.IntroSrc
 /-! Line-protocol driver for C16. One line in (`<op> <json>`), one line out.
 
 * `mirror <schema>`  : the model's answer to the standard introspection query for the schema the harness
@@ -16,7 +18,11 @@ import GqlgenVerif.Gen.ExtOrder
                        variables and resolver log the generated server reported
 * `cfg {exts, role, op}` : the configuration around the gate (`Model/IntroGateCfg.lean`): what the contract
                        (`Spec.effective`: every kind of hook in registration order) and the code read through
-                       the REGENERATED facts (`Impl.effective Gen.ExtOrder.facts`) make of the request -/
+                       the REGENERATED facts (`Impl.effective Gen.ExtOrder.facts`) make of the request
+* `compiled <schema>` : sets the compiled-in schema for the following `served` lines
+* `served {layout, override, names}` : which schema is served (`Model/IntroServed.lean`): the contract's tree and
+                       `__type(name)` answers for `Config.Schema = override` (null: none), and what the code of
+                       that exec layout answers, read through the REGENERATED facts (`Gen.IntroSrc.layouts`) -/
 open Lean GqlgenVerif.Introspect
 open GqlgenVerif (TRef)
 namespace Driver.C16
@@ -311,7 +317,36 @@ def cfg (j : Json) : String :=
     ("factsOk", Json.bool GqlgenVerif.Gen.ExtOrder.facts.ok)]).compress
 end
 
-partial def loop (h out : IO.FS.Stream) (st : IO.Ref (Option GqlgenVerif.Schema)) : IO Unit := do
+/-! ### which schema is served (`Config.Schema`): contract and the code read through the regenerated facts -/
+open GqlgenVerif.Introspect.Served in
+def served (compiled : GqlgenVerif.Introspect.Schema) (j : Json) : String :=
+  let sv : Server := { compiled := compiled, override := (obj? j "override").map schemaOf }
+  let spec := Spec.served sv
+  let names := (arr j "names").filterMap fun n => n.getStr?.toOption
+  let b := sv.override.isSome
+  let specTypes := names.map fun n => (n, match spec.lookup n with | some d => jtype spec d | none => Json.null)
+  match GqlgenVerif.Gen.IntroSrc.layouts.find? (·.name == str j "layout") with
+  | none => (Json.mkObj [("layoutKnown", false), ("factsOk", false), ("wf", spec.wf), ("specTree", jtree spec),
+      ("specTypes", Json.mkObj specTypes)]).compress
+  | some l =>
+    let implSchema : Json :=
+      if Impl.pick l b l.schemaSrc == some (Spec.which b) then "same" else
+      match Impl.src l sv l.schemaSrc with
+      | some s => jtree s
+      | none => "nilDeref"
+    let typesSame := Impl.pick l b l.typeWrapSrc == some (Spec.which b) && Impl.pick l b l.typeLookupSrc == some (Spec.which b)
+    let implTypes : Json :=
+      if typesSame then "same" else
+      match Impl.src l sv l.typeWrapSrc, Impl.src l sv l.typeLookupSrc with
+      | some w, some lk => Json.mkObj (names.map fun n => (n, match lk.lookup n with | some d => jtype w d | none => Json.null))
+      | _, _ => "nilDeref"
+    (Json.mkObj [("layoutKnown", true), ("factsOk", l.ok), ("wf", spec.wf),
+      ("guards", Json.mkObj [("schema", l.schemaGuard), ("type", l.typeGuard)]),
+      ("specTree", jtree spec), ("specTypes", Json.mkObj specTypes),
+      ("implTree", implSchema), ("implTypes", implTypes)]).compress
+
+partial def loop (h out : IO.FS.Stream) (st : IO.Ref (Option GqlgenVerif.Schema))
+    (cst : IO.Ref (Option GqlgenVerif.Introspect.Schema)) : IO Unit := do
   let line ← h.getLine
   if line.isEmpty then return ()
   let l := if line.back == '\n' then (line.dropEnd 1).toString else line
@@ -327,16 +362,22 @@ partial def loop (h out : IO.FS.Stream) (st : IO.Ref (Option GqlgenVerif.Schema)
       | "chk" => pure (chk j)
       | "cfg" => pure (cfg j)
       | "schema" => do st.set (some (Driver.ExecIO.schema j)); pure "ok"
+      | "compiled" => do cst.set (some (schemaOf j)); pure "ok"
+      | "served" => do
+        match (← cst.get) with
+        | some c => pure (served c j)
+        | none => pure "no-compiled-schema"
       | "gate" => do
         match (← st.get) with
         | some s => pure (gate s j)
         | none => pure "no-schema"
       | _ => pure "bad-op"
   out.putStrLn res
-  loop h out st
+  loop h out st cst
 
 end Driver.C16
 
 def main : IO Unit := do
   let st ← IO.mkRef (none : Option GqlgenVerif.Schema)
-  Driver.C16.loop (← IO.getStdin) (← IO.getStdout) st
+  let cst ← IO.mkRef (none : Option GqlgenVerif.Introspect.Schema)
+  Driver.C16.loop (← IO.getStdin) (← IO.getStdout) st cst
